@@ -687,6 +687,12 @@ fn fn_meta<'tcx>(tcx: TyCtxt<'tcx>, ldid: LocalDefId) -> Vec<(&'static str, J)> 
                 let tr = tr.skip_binder();
                 o.push(("impl_trait", J::s(canon(tcx, tr.def_id))));
                 o.push(("impl_trait_args", args_j(tr.args)));
+                // a local trait that code outside the crate cannot name is an implementation detail (extension traits)
+                let reach = match tr.def_id.as_local() {
+                    Some(l) => tcx.effective_visibilities(()).is_reachable(l),
+                    None => true,
+                };
+                o.push(("impl_trait_reachable", J::Bool(reach)));
             }
         } else if let Some(tr) = tcx.trait_of_assoc(did) {
             o.push(("in_trait", J::s(canon(tcx, tr))));
